@@ -166,7 +166,7 @@ theorem dispatchLen_is_ok (d : Bytes) (dateOk : Bool) : ∃ r, dispatchLen d dat
     cases r with
     | none => exact ⟨_, rfl⟩
     | some si =>
-      have hle : si.headerLen ≤ d.size := h2 si rfl
+      have hle : si.headerLen ≤ d.size := (h2 si rfl).1
       have hu : usub sFrom d.size si.headerLen = .ok (d.size - si.headerLen) := by
         unfold usub; rw [if_pos hle]
       have hsl : slice sFrom d 0 (d.size - si.headerLen) = .ok () := by
